@@ -2,6 +2,7 @@ package kv
 
 import (
 	"fmt"
+	"strings"
 
 	"github.com/boz/kcache/filter"
 	"github.com/boz/kcache/nsname"
@@ -170,6 +171,28 @@ func tmpl(w Workload) corev1.PodTemplateSpec {
 	return corev1.PodTemplateSpec{ObjectMeta: metav1.ObjectMeta{Labels: w.Labels}}
 }
 
+// BuildPrefixPair builds two And (or two Or) terms of which the first's children are a proper prefix of the
+// second's from ONE backing array, the way a caller does who appends a condition to a slice with spare capacity
+// and builds again: And(s[:k]...) and And(s...). Nothing is written to the array afterwards.
+func BuildPrefixPair(a, b Term) (filter.Filter, filter.Filter, bool) {
+	if a.Op != b.Op || (a.Op != "and" && a.Op != "or") || len(a.Kids) == 0 || len(a.Kids) >= len(b.Kids) {
+		return nil, nil, false
+	}
+	for i := range a.Kids {
+		if a.Kids[i].Sx() != b.Kids[i].Sx() {
+			return nil, nil, false
+		}
+	}
+	s := make([]filter.Filter, 0, len(b.Kids)+2)
+	for _, k := range b.Kids {
+		s = append(s, k.Build())
+	}
+	if a.Op == "and" {
+		return filter.And(s[:len(a.Kids)]...), filter.And(s...), true
+	}
+	return filter.Or(s[:len(a.Kids)]...), filter.Or(s...), true
+}
+
 // Build evaluates the term with the library's constructors.
 func (t Term) Build() filter.Filter {
 	switch t.Op {
@@ -280,7 +303,13 @@ func (t Term) Build() filter.Filter {
 		case "job":
 			var xs []*batchv1.Job
 			for _, w := range t.Ws {
-				xs = append(xs, &batchv1.Job{ObjectMeta: metav1.ObjectMeta{Namespace: w.NS, Name: w.Name}, Spec: batchv1.JobSpec{Selector: w.Sel.build(), Template: tmpl(w)}})
+				j := &batchv1.Job{ObjectMeta: metav1.ObjectMeta{Namespace: w.NS, Name: w.Name}, Spec: batchv1.JobSpec{Selector: w.Sel.build(), Template: tmpl(w)}}
+				if strings.HasSuffix(w.Name, "2") {
+					// a finished job: what it selects does not depend on its status
+					now := metav1.Now()
+					j.Status = batchv1.JobStatus{CompletionTime: &now, Succeeded: 1}
+				}
+				xs = append(xs, j)
 			}
 			return job.PodsFilter(xs...)
 		}
